@@ -192,4 +192,108 @@ theorem decim_index_lt (n m : ℕ) (hm : 0 < m) (even : Bool) (j : ℕ)
     have h5 : (j + 1) * m = j * m + m := by ring
     omega
 
+
+/-! ### covered duration -/
+
+theorem abs_scaled_lt (c dt A k : ℚ) (hdt : 0 < dt) (hk : 0 < k) (h1 : -(c * k) < A) (h2 : A < c * k) :
+    |dt * A / k| < c * dt := by
+  rw [abs_lt]
+  have e1 := mul_lt_mul_of_pos_left h1 hdt
+  have e2 := mul_lt_mul_of_pos_left h2 hdt
+  constructor
+  · rw [lt_div_iff₀ hk]; nlinarith
+  · rw [div_lt_iff₀ hk]; nlinarith
+
+/-- the output length is even whenever `even` is requested, for every factor -/
+theorem even_outLen (n : ℕ) (f : ℚ) : 2 ∣ outLen n f true := by
+  unfold outLen newNpts
+  simp only [if_true]
+  rw [arangeLen_intCast]
+  set z := truncZ (f * (n : ℚ) / 2)
+  rcases le_or_gt 0 z with h | h
+  · exact ⟨z.toNat, by omega⟩
+  · exact ⟨0, by omega⟩
+
+/-- refinement: `|(L−1)·dt/k − (n−1)·dt| < 2·max(dt, dt/k)` (in fact `≤ dt`) -/
+theorem duration_refine (n k : ℕ) (hk : 1 ≤ k) (dt : ℚ) (hdt : 0 < dt) (even : Bool) :
+    |(((outLen n (k : ℚ) even : ℕ) : ℚ) - 1) * (dt / (k : ℚ)) - ((n : ℚ) - 1) * dt|
+      < 2 * max dt (dt / (k : ℚ)) := by
+  have hk0 : (0 : ℚ) < (k : ℚ) := by exact_mod_cast (by omega : 0 < k)
+  have hk1 : (1 : ℚ) ≤ (k : ℚ) := by exact_mod_cast hk
+  have hL : k * n - 1 ≤ outLen n (k : ℚ) even ∧ outLen n (k : ℚ) even ≤ k * n := by
+    cases even
+    · rw [outLen_refine_odd]; omega
+    · rw [outLen_refine_even]; omega
+  obtain ⟨hL1, hL2⟩ := hL
+  set L := outLen n (k : ℚ) even
+  have hL1q : (k : ℚ) * (n : ℚ) - 1 ≤ (L : ℚ) := by
+    have : ((k * n : ℕ) : ℚ) ≤ ((L + 1 : ℕ) : ℚ) := by exact_mod_cast (by omega : k * n ≤ L + 1)
+    push_cast at this; linarith
+  have hL2q : (L : ℚ) ≤ (k : ℚ) * (n : ℚ) := by exact_mod_cast hL2
+  have hx : ((L : ℚ) - 1) * (dt / (k : ℚ)) - ((n : ℚ) - 1) * dt
+      = dt * ((L : ℚ) - 1 - (k : ℚ) * (n : ℚ) + (k : ℚ)) / (k : ℚ) := by
+    field_simp
+    ring
+  rw [hx]
+  have := abs_scaled_lt 2 dt ((L : ℚ) - 1 - (k : ℚ) * (n : ℚ) + (k : ℚ)) (k : ℚ) hdt hk0
+    (by linarith) (by linarith)
+  have hmax : dt ≤ max dt (dt / (k : ℚ)) := le_max_left _ _
+  linarith
+
+/-- decimation, `even = False`: `|(L−1)·m·dt − (n−1)·dt| < 2·max(dt, m·dt)` (in fact `< m·dt`) -/
+theorem duration_decim_odd (n m : ℕ) (hm : 1 ≤ m) (dt : ℚ) (hdt : 0 < dt) :
+    |(((outLen n (1 / (m : ℚ)) false : ℕ) : ℚ) - 1) * (dt / (1 / (m : ℚ))) - ((n : ℚ) - 1) * dt|
+      < 2 * max dt (dt / (1 / (m : ℚ))) := by
+  have hm0 : (0 : ℚ) < (m : ℚ) := by exact_mod_cast (by omega : 0 < m)
+  rw [outLen_decim_odd n m hm]
+  have h1 := Nat.div_mul_le_self (n + m - 1) m
+  have h2 := Nat.lt_div_mul_add (a := n + m - 1) (by omega : 0 < m)
+  set L := (n + m - 1) / m
+  -- n ≤ m·L ≤ n + m − 1
+  have hA : n ≤ L * m ∧ L * m ≤ n + m - 1 := by omega
+  have hA1 : (n : ℚ) ≤ (L : ℚ) * (m : ℚ) := by exact_mod_cast hA.1
+  have hA2 : (L : ℚ) * (m : ℚ) ≤ (n : ℚ) + (m : ℚ) - 1 := by
+    have : ((L * m + 1 : ℕ) : ℚ) ≤ ((n + m : ℕ) : ℚ) := by exact_mod_cast (by omega : L * m + 1 ≤ n + m)
+    push_cast at this; linarith
+  have hx : ((L : ℚ) - 1) * (dt / (1 / (m : ℚ))) - ((n : ℚ) - 1) * dt
+      = (dt * (m : ℚ)) * ((L : ℚ) * (m : ℚ) - (m : ℚ) - (n : ℚ) + 1) / (m : ℚ) := by
+    field_simp
+    ring
+  have hnd : dt / (1 / (m : ℚ)) = dt * (m : ℚ) := by field_simp
+  rw [hx, hnd]
+  have := abs_scaled_lt 2 (dt * (m : ℚ)) ((L : ℚ) * (m : ℚ) - (m : ℚ) - (n : ℚ) + 1) (m : ℚ)
+    (by positivity) hm0 (by linarith) (by linarith)
+  have hmax : dt * (m : ℚ) ≤ max dt (dt * (m : ℚ)) := le_max_right _ _
+  linarith
+
+/-- decimation, `even = True`: only `< 3·new_dt` holds (`new_dt = m·dt`) -/
+theorem duration_decim_even (n m : ℕ) (hm : 1 ≤ m) (dt : ℚ) (hdt : 0 < dt) :
+    |(((outLen n (1 / (m : ℚ)) true : ℕ) : ℚ) - 1) * (dt / (1 / (m : ℚ))) - ((n : ℚ) - 1) * dt|
+      < 3 * (dt / (1 / (m : ℚ))) := by
+  have hm0 : (0 : ℚ) < (m : ℚ) := by exact_mod_cast (by omega : 0 < m)
+  have hm1 : (1 : ℚ) ≤ (m : ℚ) := by exact_mod_cast hm
+  rw [outLen_decim_even n m]
+  have h1 := Nat.div_mul_le_self n (2 * m)
+  have h2 := Nat.lt_div_mul_add (a := n) (by omega : 0 < 2 * m)
+  set z := n / (2 * m)
+  -- n − 2m < 2·z·m ≤ n
+  have hB1 : ((2 * z : ℕ) : ℚ) * (m : ℚ) ≤ (n : ℚ) := by
+    have : 2 * z * m ≤ n := by
+      have : 2 * z * m = z * (2 * m) := by ring
+      omega
+    exact_mod_cast this
+  have hB2 : (n : ℚ) < ((2 * z : ℕ) : ℚ) * (m : ℚ) + 2 * (m : ℚ) := by
+    have : n < 2 * z * m + 2 * m := by
+      have : 2 * z * m = z * (2 * m) := by ring
+      omega
+    exact_mod_cast this
+  have hx : (((2 * z : ℕ) : ℚ) - 1) * (dt / (1 / (m : ℚ))) - ((n : ℚ) - 1) * dt
+      = (dt * (m : ℚ)) * (((2 * z : ℕ) : ℚ) * (m : ℚ) - (m : ℚ) - (n : ℚ) + 1) / (m : ℚ) := by
+    field_simp
+    ring
+  have hnd : dt / (1 / (m : ℚ)) = dt * (m : ℚ) := by field_simp
+  rw [hx, hnd]
+  exact abs_scaled_lt 3 (dt * (m : ℚ)) (((2 * z : ℕ) : ℚ) * (m : ℚ) - (m : ℚ) - (n : ℚ) + 1) (m : ℚ)
+    (by positivity) hm0 (by linarith) (by linarith)
+
 end EqsigVerif.Model.TimeStep
